@@ -2,10 +2,38 @@
 """writes MANIFEST.json from the table below (kept in one place so it stays valid)"""
 import json, os
 V = os.path.dirname(os.path.dirname(os.path.abspath(__file__)))
+T_DEC = "K2 (rendered model text = real generate() text), K3 (model semantics = compiled decoders on generated values, every truncation, boundary words, random words), K4 (Spec.v = generator mirror); property-level search on the real decoders"
 CLAIMED = {
+ "C01": ("Coq: C01_counted_array (array reader returns every element in order for any element decoder meeting the trait contract); round trip for whole specifications in progress (XdrProofs.RoundTrip); " + T_DEC,
+         "theorem over the runtime model for all element types/counts; the whole-specification statement is tied by K2/K3/K4 and searched with generated values of every declared type", "DESIGN.md 7 C01"),
+ "C02": ("Coq: C02_size_characterised -- for all specifications satisfying wf_size and all well-typed values, emitted wire_size() + 4*nF1 = |RFC 4506 encoding| (induction over the typing derivation), C02_exact, C02_wsz_mult4, C02_refuted_F1; " + T_DEC,
+         "the universal statement is a theorem about the model of the emitters and of header.rs; the model is tied to the code on every run", "DESIGN.md 7 C02"),
+ "C03": ("Coq: C03_frame for every emitted module, type and input; families are two renderings of one IR body (K2) and both compiled families are run on every input (K3)",
+         "frame theorem holds for all inputs, valid or not; independence of suffix/offset is checked on the real decoders", "DESIGN.md 7 C03"),
+ "C04": ("Coq: every runtime reader is total (Ok or Err) on every buffer; cursor never leaves the buffer; whole-decoder totality PARTIAL (tied by K3 on hostile inputs; native stack = finding F9)",
+         "reader-level theorems + correspondence on truncations / boundary words / huge counts + deep-chain probe", "DESIGN.md 7 C04"),
+ "C05": ("Coq: count > max and count > bytes present are InvalidLength, count = max accepted, for all buffers (reader level); bound carried by the emitted call (K2); prefixes PARTIAL (K3 + exhaustive byte-granular prefixes); F3 refuted",
+         "reader-level theorems for all inputs; emitted bounds tied by K2 on every bounded declarator form", "DESIGN.md 7 C05"),
+ "C06": ("Coq: invalid boolean / option marker / enum word / non-UTF-8 rejected with the right Error for every word; union arm selection PARTIAL (semantics of emitted patterns tied by K2+K3, searched on every declared label)",
+         "theorems over all 2^32 words (statements over N, not sweeps)", "DESIGN.md 7 C06"),
+ "C07": ("Coq: every Rust keyword escaped by both regenerated tables, tables agree; rustc is the oracle: every corpus module compiled with both derive lines plus visitors naming every documented field/variant; wf_module PARTIAL",
+         "compilation is observed, not proved; the keyword lemma is re-proved against the regenerated tables on every run", "DESIGN.md 7 C07"),
+ "C08": ("Coq: C08_views for every emitted module, type and input: every non-empty opaque leaf is a view into the input at the offset where its bytes lie; K3 compares real pointer offsets",
+         "theorem holds for all inputs and all specifications; pointer identity is observed by the harness", "DESIGN.md 7 C08"),
+ "C09": ("Coq: C09_requests_bounded for every emitted module, type, input and outcome: each allocator request is at most the bytes remaining; K3a: real allocator bytes = model ledger",
+         "per-request bound is a theorem for all inputs; the linear total is observed (counting allocator) on hostile counts", "DESIGN.md 7 C09"),
  "C10": ("Coq theorems over Runtime.v (reader contracts for all n, r, max; all 2^32 boolean words) + K3 exhaustive grid correspondence with header.rs + independent contract oracle",
-         "theorems C10_* quantify over every buffer, length and maximum (no bound); the model of header.rs is tied to the code by running both on the exhaustive (n, r, max) grid on every run",
-         "DESIGN.md section 7 C10"),
+         "theorems quantify over every buffer, length and maximum; the model of header.rs is tied to the code on the exhaustive (n, r, max) grid", "DESIGN.md 7 C10"),
+ "C11": ("Coq: generic index depends only on the set of items (order independence via C13); source scan for nondeterminism; real generator in fresh processes / shared Generator; layout and permutation variants compared item by item",
+         "order independence of the one hash-based index is a theorem; process-level determinism is observed", "DESIGN.md 7 C11"),
+ "C12": ("Coq: constructors keep type/array kind/bound/optional flag and accumulate fall-through labels; K1 (model front end = real pest + Ast::new); independent reference AST from a random declaration model under random layout",
+         "front-end model regenerated from xdr.pest and tied by K1; text-level round trip PARTIAL", "DESIGN.md 7 C12"),
+ "C13": ("Coq: C13_reach -- for ANY item list, name in generic index iff opaque reachable (soundness by invariant, completeness by closedness of the fixpoint), C13_fuel, C13_emitted_*; exhaustive graphs k<=2, sampled k=3, chains of depth >= 12",
+         "full theorem for all dependency graphs, orders, cycles; model tied by K1 on Ast::generics()", "DESIGN.md 7 C13"),
+ "C14": ("Coq: constructors total on grammar shapes, panic exactly in the F11 classes; rejected text yields Err; K1/K2 outcome classes and panic sites on hostile and mutated texts",
+         "panic sites are explicit outcomes of the model; statement for all conforming trees PARTIAL", "DESIGN.md 7 C14"),
+ "C15": ("Coq: C15_* -- main.rs as a function of args, file system and generate: usage/exit 1, all-ok output in order/exit 0, first failure prefix/non-zero; binary built from /repo run on argument lists",
+         "theorem for every file system and library behaviour; the binary is compared with the model instantiated with the library's own generate", "DESIGN.md 7 C15"),
 }
 PENDING = {}
 ALL = ["C%02d" % i for i in range(1, 16)]
